@@ -1,7 +1,8 @@
 (* C15 - the property theorems, nothing else.  Each is closed by [exact] of a lemma proved in Dsl/DslProofs.v.
    dsl_eval L g : L = per-loop iteration budget, g = remaining depth budget (300 - ScriptFrame::Depth). *)
 From Coq Require Import ZArith List String Bool.
-From Icv Require Import Dsl.DslDefs Dsl.DslOps Dsl.DslEval Dsl.DslProofs Dsl.DslMono Dsl.DslAcyclic Dsl.DslAcyclicEval.
+From Icv Require Import Dsl.DslDefs Dsl.DslOps Dsl.DslEval Dsl.DslProofs Dsl.DslMono Dsl.DslAcyclic Dsl.DslAcyclicEval Dsl.DslPrec.
+From Icv Require Import Facts.Facts_c15.
 Import ListNotations.
 Local Open Scope string_scope.
 
@@ -120,6 +121,28 @@ Theorem C15_cyclic_traversal_refuted :
   fst (dsl_run 400 dsl_prog_cyclic) = DrAbort DaCycle /\ fst (dsl_run 400 dsl_prog_cyclic_tostring) = DrAbort DaCycle.
 Proof. exact dsl_cyclic_refuted. Qed.
 Print Assumptions C15_cyclic_traversal_refuted.
+
+(* operator precedence: the grammar's %left/%right/%nonassoc declarations (config_parser.yy), the documented operator table
+   (doc/17-language-reference.md) and the table of the generator's minimal-parenthesis printer - all regenerated into
+   Facts_c15.v on every run - agree on every binary operator of the grammar: documented level = printer level, %nonassoc exactly
+   on the printer's non-associative levels and %left elsewhere; for every pair of operators "binds tighter in the
+   documentation" <-> "declared later in the grammar", equal level <-> same declaration line.  (That bison resolves all
+   conflicts of these operators by the declarations alone is compared by the differential run, not proved.) *)
+Theorem C15_precedence_tables_agree :
+  (forall op, In op dsl_binops ->
+     exists i a d, dsl_yacc op = Some (i, a) /\ dsl_doc_bin op = Some d /\ dsl_printer_lv op = Some d /\
+                   (a = 2%Z <-> In d f_c15_printer_nonassoc) /\ (a = 0%Z \/ a = 2%Z)) /\
+  (forall o1 o2, In o1 dsl_binops -> In o2 dsl_binops ->
+     forall i1 a1 i2 a2 d1 d2, dsl_yacc o1 = Some (i1, a1) -> dsl_yacc o2 = Some (i2, a2) -> dsl_doc_bin o1 = Some d1 -> dsl_doc_bin o2 = Some d2 ->
+     ((d1 < d2)%Z <-> (i2 < i1)%nat) /\ (d1 = d2 <-> i1 = i2)).
+Proof. exact dsl_prec_tables_agree. Qed.
+Print Assumptions C15_precedence_tables_agree.
+
+(* ... including: 20 binary operators; prefix operators (! ~ unary - + & *) tighter than every binary and looser than the postfix
+   . ( [ ; ?: looser than every binary operator and right associative *)
+Theorem C15_precedence_consistent : dsl_prec_consistent = true.
+Proof. exact dsl_prec_consistent_true. Qed.
+Print Assumptions C15_precedence_consistent.
 
 (* the two findings of the widened language that the model can express: a `using` import that evaluates to null reached by a
    lookup (the code dereferences a null pointer), intersection() padding its own running result (wrong values); the model stops
